@@ -90,6 +90,11 @@ HARNESSES = [
          loops=["sqfs_xattr_writer_flush"], loop_tables=["C14"], native=False,
          fp=dict(_FP_FILE, destroy="mw_destroy"),
          timeout=600, cases=[dict(id="all", tier="quick")]),
+    dict(name="meta_append", file="meta_append.c",
+         label="bounded(append size <= 20000)", unwind=6, timeout=280,
+         instrument_flags=["--replace-calls", "sqfs_meta_writer_flush:c13_flush_contract"],
+         fp=dict(_FP_FILE, do_block="c14_do_block", destroy="c14_obj_destroy"),
+         cases=[dict(id="all", tier="quick")]),
     dict(name="meta_flush", file="meta_flush.c", label="proved",
          fp=dict(_FP_FILE, do_block="c14_do_block", destroy="c14_obj_destroy"),
          timeout=600, cases=[dict(id="all", tier="quick")]),
@@ -106,7 +111,7 @@ HARNESSES = [
          instrument_flags=["--replace-calls", "get_new_block:c13_get_new_block",
                            "--replace-calls", "enqueue_block:c13_enqueue_block"],
          label="bounded(append size <= 2 blocks + 3, block = 8)", fp=_FP_BP,
-         defines={"BP_BS": 8}, unwind=9, timeout=280,
+         defines={"BP_BS": 8}, unwind=9, timeout=280, nochecks=["--conversion-check"],
          cases=[dict(id="all", tier="quick")]),
     dict(name="bp_fragment", file="bp_fragment.c",
          label="bounded(block index <= 11, payload <= 16)", fp=_FP_BP, unwind=6, timeout=900,
